@@ -84,6 +84,7 @@ func runProperty(id string, def propDef, tier string, seed int64) (code int) {
 				rep.Undec(id+".load", "loader["+name+"]", "", err.Error())
 				return
 			}
+			curProgram = p
 			if len(p.Pkgs) != 9 {
 				rep.Undec(id+".load", "loader["+name+"]", "", fmt.Sprintf("expected 9 repository packages, loaded %d", len(p.Pkgs)))
 			}
